@@ -272,6 +272,30 @@ func runC05(c *Ctx) {
 
 	ruleTruncationGuard(c, "C05.4")
 	ruleInboundCopy(c, "C05.5")
+	// frame sizes computed in a narrow type wrap for large payloads: the frame is then cut or
+	// merged with its neighbours
+	{
+		fns := []*ssa.Function{w.Func("proto", "", "consumeSingleTURNFrame"), w.Func("proto", "STUNConn", "ReadFrom"),
+			w.Func("proto", "ChannelData", "Encode"), w.Func("proto", "ChannelData", "Decode"), w.Func("proto", "ChannelData", "WriteHeader")}
+		seen := map[*ssa.Function]bool{}
+		var all []*ssa.Function
+		for _, f := range fns {
+			for _, h := range w.helpersOf(f) {
+				if !seen[h] {
+					seen[h] = true
+					all = append(all, h)
+				}
+			}
+			// unexported helpers with several callers (frame-size functions)
+			w.eachCallThrough(f, 2, func(call *ssa.Call, _ func(ssa.Value) ssa.Value) {
+				if h := call.Call.StaticCallee(); h != nil && w.IsMod[h] && len(h.Blocks) > 0 && !seen[h] && h.Object() != nil && !h.Object().Exported() {
+					seen[h] = true
+					all = append(all, h)
+				}
+			})
+		}
+		ruleNoWrap(c, "C05.6", all, 1)
+	}
 }
 
 // noStoreBetweenAny: the local is not stored to between its (last) filling call and `to`.
